@@ -97,6 +97,35 @@ inductive Interleaving {α : Type} : List (List α) → List α → Prop where
   | next {ss : List (List α)} {x : α} {s : List α} {m : List α} (i : Nat) :
       ss[i]? = some (x :: s) → Interleaving (ss.set i s) m → Interleaving ss (x :: m)
 
+/-! ### endpoint failure, error report, disconnect
+
+When a websocket endpoint fails, each of its watchers reports an `*OnchainError` whose `Idx`
+is computed by the watcher from its context; the consumer (dosnode `onchainLoop`) answers every
+report with `DisconnectWs(Idx)`, which cancels the context of endpoint `Idx`: its watchers
+stop forwarding.  An endpoint's stream is therefore split at the moment the consumer handles
+the reports: `before` has been forwarded, `after` is forwarded only if the endpoint has not been
+disconnected. -/
+
+structure Endpoint (H P : Type) where
+  before : List (Item H P)
+  after : List (Item H P)
+
+/-- the streams `merge` gets to see, endpoint `i` first: the failed endpoint and every endpoint named by a
+report contribute what they forwarded before; the others their whole stream -/
+def streamsAfterReports (failed : Nat) (reports : List Nat) : Nat → List (Endpoint H P) → List (List (Item H P))
+  | _, [] => []
+  | i, ep :: eps =>
+    (if i = failed ∨ i ∈ reports then ep.before else ep.before ++ ep.after)
+      :: streamsAfterReports failed reports (i + 1) eps
+
+/-- the `Idx` a watcher of websocket endpoint `e` reports, as a function of the helper its table entry
+uses: `getWsIndex` reads the key the websocket contexts carry (the endpoint's position); `getIndex` reads
+the RPC key, which a websocket context does not have: 0. -/
+def reportIdx (helper : String) (e : Nat) : Option Nat :=
+  if helper == "getWsIndex(ctx)" then some e
+  else if helper == "getIndex(ctx)" then some 0
+  else none
+
 /-! ### executable helpers for the driver (hash := identity function, injective) -/
 
 abbrev DIdent := Ident Bytes
